@@ -47,6 +47,11 @@ private:
    */
   void propagateDirection_(Graph::NodeId node);
 
+  /**
+   * @brief Orient every link of an (unrooted) tree away from a node.
+   */
+  void orientFrom_(Graph::NodeId node, Graph::NodeId origin);
+
   // recursive function for getSubtreeNodes
   void fillSubtreeMetNodes_(std::vector<Graph::NodeId>& metNodes, Graph::NodeId localRoot) const;
 
@@ -335,11 +340,29 @@ void TreeGraphImpl<GraphImpl>::rootAt(Graph::NodeId newRoot)
   if (!isValid())
     throw Exception("TreeGraphImpl::rootAt: Tree is not Valid.");
 
+  bool wasUndirected = !GraphImpl::isDirected();
   GraphImpl::makeDirected();
   // set the new root on the Graph
   GraphImpl::setRoot(newRoot);
-  // change edge direction between the new node and the former one
-  propagateDirection_(newRoot);
+  if (wasUndirected)
+    orientFrom_(newRoot, newRoot); // the directions chosen by makeDirected are arbitrary
+  else
+    propagateDirection_(newRoot); // change edge direction between the new node and the former one
+}
+
+template<class GraphImpl>
+void TreeGraphImpl<GraphImpl>::orientFrom_(Graph::NodeId node, Graph::NodeId origin)
+{
+  for (auto in : GraphImpl::getIncomingNeighbors(node))
+  {
+    if (in != origin)
+      GraphImpl::switchNodes(in, node);
+  }
+  for (auto out : GraphImpl::getOutgoingNeighbors(node))
+  {
+    if (out != origin)
+      orientFrom_(out, node);
+  }
 }
 
 template<class GraphImpl>
